@@ -11,6 +11,6 @@ echo "repo HEAD: $(git -C /repo rev-parse --short HEAD)  date: $(date -u +%FT%TZ
 ( cd /tmp && TQDM_DISABLE=1 PYTHONPATH="$WT" timeout 900 /venv/bin/python "$D/demo.py" >/dev/null 2>&1 ); echo "demo on unmodified tree: exit $?"
 git -C "$WT" apply "$D/patch.diff" && echo "patch applies: yes" || echo "patch applies: NO"
 ( cd /tmp && TQDM_DISABLE=1 PYTHONPATH="$WT" timeout 900 /venv/bin/python "$D/demo.py" >/dev/null 2>&1 ); echo "demo with patch: exit $?"
-BASELINE_XDIST=${BASELINE_XDIST:-4} /verif/tools/baseline.sh "$WT" | tail -3
+BASELINE_XDIST=${BASELINE_XDIST:-4} /verif/tools/baseline.sh "$WT" | tail -8
 } > "$D/confirm.txt" 2>&1
 cat "$D/confirm.txt"
